@@ -124,7 +124,13 @@ def generate(gen_dir, build_dir, write_if_changed):
         if not mu or not mf or mf.group(2) != mu.group(1):
             raise TranslatorGap("SWNM rebuilder: free ids are not computed from the union of used and named switches")
         free = re.escape(mf.group(1))
-        mp = re.search(r"if (\w+) > len\(%s\) - 1:" % free, src)
+        # "the pointer is past the end of the free list", in any of its equivalent integer spellings
+        mp = None
+        for pat in (r"if (\w+) > len\(%s\) - 1:", r"if (\w+) >= len\(%s\):", r"if len\(%s\) <= (\w+):", r"if len\(%s\) - 1 < (\w+):",
+                    r"if not (\w+) < len\(%s\):", r"if not (\w+) <= len\(%s\) - 1:"):
+            mp = re.search(pat % free, src)
+            if mp:
+                break
         if not mp:
             raise TranslatorGap("SWNM rebuilder: no exhaustion test on the free-id pointer")
         ptr = re.escape(mp.group(1))
